@@ -187,6 +187,53 @@ def check_panel(case, ctx):
     ctx.close('Panel.freq==analysis.freq', np.real(p2.eigvals[:kk]), np.real(ev[:kk]), 1e-6, bucket='Panel.freq!=analysis.freq')
 
 
+def check_bay(case, ctx):
+    """(k0, kM) of stiffened bays and of panel assemblies through analysis.freq."""
+    from compmech.analysis import freq
+    from .C07 import build_bay
+    name = 'freq[bay]'
+    with package(name + '.matrices'):
+        spb, stiffs = build_bay(case)
+        K = spb.calc_k0(silent=True)
+        M = spb.calc_kM(silent=True)
+    Kd, Md = dense(K), dense(M)
+    active = np.where(np.abs(np.diag(Md)) > 0)[0]
+    ctx.label('stiffeners:%d' % len(stiffs), 'sparse' if case['sparse'] else 'dense', *['kind:' + sc['kind'] for sc in case['stiffeners']])
+    if active.size < 8:
+        ctx.exclude('fewer than 8 active amplitudes')
+        return
+    Ka, Ma = Kd[np.ix_(active, active)], Md[np.ix_(active, active)]
+    dk = np.sqrt(np.abs(np.diag(Ka)))
+    if np.any(dk == 0) or np.linalg.eigvalsh(Ka / np.outer(dk, dk))[0] < 1e-10:
+        ctx.exclude('k0 not positive definite on the active amplitudes (rigid-body modes or finding R14b)')
+        return
+    dm = np.sqrt(np.abs(np.diag(Ma)))
+    if np.linalg.eigvalsh(Ma / np.outer(dm, dm))[0] < 1e-10:
+        ctx.exclude('kM not positive definite (finding R14 for BladeStiff1D flanges)')
+        return
+    k = min(case['k'], active.size - 3)
+    ctx.nontrivial = len(stiffs) > 0
+    with package(name):
+        ev, evec = freq(K, M, tol=0, sparse_solver=case['sparse'], silent=True, num_eigvalues=k)
+    judge(ctx, name, K, M, active, ev, evec, k, True, sparse=case['sparse'], tol=1e-5)
+
+
+@st.composite
+def _bay_strategy(draw, tier='quick'):
+    from .C07 import bay_case
+    case = draw(bay_case(max_stiff=2))
+    names = gen.flag_names()
+    ss = [0.] * 16 + [0., 1., 0., 1., 0., 1., 0., 1.]
+    ssf = [1.] * 16 + [0., 1., 0., 1., 0., 1., 0., 1.]
+    cf = [0.] * 4 + [1.] * 4 + [0.] * 4 + [1.] * 4 + [0., 0., 0., 0., 1., 1., 1., 1.]
+    case['flags'] = dict(zip(names, draw(st.sampled_from([ss, ssf, cf]))))
+    case['m'] = max(case['m'], 3)
+    case['n'] = max(case['n'], 3)
+    case['k'] = draw(st.integers(1, 8))
+    case['sparse'] = draw(st.booleans())
+    return case
+
+
 @st.composite
 def _random_strategy(draw, tier='quick'):
     big = draw(st.integers(0, 9))
@@ -222,5 +269,8 @@ SUBS = [
              'reduced_dof on/off, k 1..25; non-trivial = null rows or clustered spectrum', shards_quick=16),
     Sub('panel_pairs', _panel_strategy, check_panel, quick=200, thorough=3000,
         rule='(k0, kM) of generated panel models through analysis.freq and Panel.freq; non-trivial = restrained amplitudes present',
+        shards_quick=16),
+    Sub('bay_pairs', _bay_strategy, check_bay, quick=64, thorough=1000,
+        rule='(k0, kM) of stiffened bays with 0..2 stiffeners of the three kinds through analysis.freq; non-trivial = at least one stiffener',
         shards_quick=16),
 ]
